@@ -473,8 +473,20 @@ class Extractor:
         return self.ann(fn.returns)
 
     def block(self, stmts, ctx):
+        # guard clause: `if q.full(): raise …` (no else, the body always leaves the block) guards the REST of the block
+        # exactly as `if q.full(): raise … else: <rest>` would
+        pushed = 0
+        guards = ctx.setdefault('guards', [])
         for st in stmts:
             self.stmt(st, ctx)
+            if isinstance(st, ast.If) and not st.orelse and st.body and \
+                    isinstance(st.body[-1], (ast.Raise, ast.Return, ast.Continue, ast.Break)):
+                g = self.full_guard(st.test)[1]
+                if g:
+                    guards.append(g)
+                    pushed += 1
+        for _ in range(pushed):
+            guards.pop()
 
     def stmt(self, st, ctx):
         if isinstance(st, ast.With):
